@@ -166,15 +166,21 @@ func (w WOutcome) Err() error {
 // OpenWriter builds the real Writer; cfg.WBuf != 0 selects a custom size for the
 // buffer of the shared output bitstream (a tuning knob the simulator randomises).
 func OpenWriter(cfg Config, sink io.WriteCloser) (*kio.Writer, error) {
-	if cfg.WBuf == 0 {
+	if cfg.WBuf == 0 && !cfg.SkipBlocks {
 		return kio.NewWriter(sink, cfg.Transform, cfg.Entropy, uint(cfg.BlockSize), uint(cfg.Jobs), uint(cfg.Checksum), cfg.HintValue, cfg.Headerless)
+	}
+	ctx := map[string]any{"entropy": cfg.Entropy, "transform": cfg.Transform, "blockSize": uint(cfg.BlockSize), "jobs": uint(cfg.Jobs),
+		"checksum": uint(cfg.Checksum), "fileSize": cfg.HintValue, "headerless": cfg.Headerless}
+	if cfg.SkipBlocks {
+		ctx["skipBlocks"] = true
+	}
+	if cfg.WBuf == 0 {
+		return kio.NewWriterWithCtx(sink, ctx)
 	}
 	obs, err := bitstream.NewDefaultOutputBitStream(sink, uint(cfg.WBuf))
 	if err != nil {
 		return nil, err
 	}
-	ctx := map[string]any{"entropy": cfg.Entropy, "transform": cfg.Transform, "blockSize": uint(cfg.BlockSize), "jobs": uint(cfg.Jobs),
-		"checksum": uint(cfg.Checksum), "fileSize": cfg.HintValue, "headerless": cfg.Headerless}
 	return kio.NewWriterWithCtx2(obs, ctx)
 }
 
